@@ -55,7 +55,9 @@ int ifdef_ignore(AsmContext *asm_context)
         if (nested_if == 0) { return 2; }
       }
         else
-      if (strcasecmp(token, "if") == 0 || strcasecmp(token, "ifdef") == 0)
+      if (strcasecmp(token, "if") == 0 ||
+          strcasecmp(token, "ifdef") == 0 ||
+          strcasecmp(token, "ifndef") == 0)
       {
         nested_if++;
       }
